@@ -10,9 +10,10 @@ RULE = ("histories = lists of plain-data steps (set single key / set key tuple /
         "delete by a key tuple (the tuple a group currently has, stale, partial, re-ordered or "
         "re-spelled ones: never a key, so KeyError and nothing changes) / assignment of an "
         "unhashable value (refused; the history goes on) / "
-        "lookup / construct from dict; StrategyDict: item and decorator stores, refused "
-        "stores of unhashable strategies, item and "
-        "attribute deletes, calls); exhaustive over 3 keys x 2 values up to a bounded "
+        "lookup / construct from what dict() takes: a dict, pairs, keywords, or another MultiKeyDict, which "
+        "then goes on with a history of its own next to the copy; StrategyDict: item and decorator stores, "
+        "refused stores of unhashable strategies, item and "
+        "attribute deletes, calls with positional / keyword / no arguments); exhaustive over 3 keys x 2 values up to a bounded "
         "length plus Hypothesis histories over larger universes (hash-equal key and value "
         "spellings, duplicate keys in tuples); oracle = mkd_model (ordered groups) compared "
         "through the public API after every step; non-trivial = the history overwrites or "
@@ -22,6 +23,7 @@ ASSUMPTIONS = [
   "keys and values are hashable and compared with ==, so 1, 1.0 and True are one key / one value",
   "an unhashable value cannot be stored (the map is invertible): such an assignment is expected to raise TypeError, and, being no assignment, to leave a MultiKeyDict as it was",
   "a StrategyDict releases the names an assignment overwrites before it stores; when the store is then refused the check accepts both outcomes per overwritten name (still bound to its old strategy, or released like by del) and requires everything else of the statement: the refused object is nowhere, the default is the first strategy really stored (unset once it has lost all its names)",
+  "MultiKeyDict(*args, **kwargs) holds what assigning the items of dict(*args, **kwargs) in that dict's order gives (the docstring: casting from another dict); positional sources are generated with each key once and no key repeated as a keyword, where this and one-by-one assignment of the given pairs agree; a MultiKeyDict given as the mapping contributes its (key tuple, value) items, i.e. a copy, and both dictionaries are then independent",
   "lookups use scalar keys (a tuple passed to d[...] addresses the stored tuple itself, documented as an IPython work-around)",
   "StrategyDict names are strings (two of them, copy and keys, shadow dict methods on purpose); attributes and the default are never assigned manually",
 ]
@@ -265,6 +267,9 @@ def run_ex(case):
 KEYS = ["a", "b", 1, 1.0, True, 2, None, ("t",)]   # ("t",) only ever inside a tuple key
 SCALAR_KEYS = ["a", "b", 1, 1.0, True, 2, None]
 VALS = [1, 1.0, 2, "x", True, None]
+KW_KEYS = ["a", "b", "c"]                            # keys that can be given as keyword arguments
+UNIVERSE = SCALAR_KEYS + ["c"]
+HOWS = ["dict", "dict", "pairs", "keywords", "dict+keywords", "pairs+keywords", "copy", "copy", "copy+keywords"]
 
 
 def strat_mkd(tier):
@@ -291,29 +296,78 @@ def strat_mkd(tier):
     ).map(tuple),
   )
   init = st.one_of(st.none(), st.lists(st.tuples(key, val), max_size=4))
+  # how a dictionary that does not start empty is made (the constructor takes what dict() takes): from a
+  # dict, from a list of pairs, from keywords, from a mapping / pairs plus keywords, or from another
+  # MultiKeyDict (a copy: from then on two live dictionaries with a history each)
+  how = st.sampled_from(HOWS)
+  kw = st.lists(st.tuples(st.sampled_from(KW_KEYS), val), max_size=2)
   # (half of the histories have at least 4 steps: every prefix is compared, and the failing operations
   # above must not thin out the overwrites and merges per history)
-  return st.fixed_dictionaries(dict(init=init, ops=st.one_of(st.lists(op, max_size=maxlen),
-                                                             st.lists(op, min_size=4, max_size=maxlen))))
+  return st.fixed_dictionaries(dict(init=init, how=how, kw=kw,
+                                    ops=st.one_of(st.lists(op, max_size=maxlen),
+                                                  st.lists(op, min_size=4, max_size=maxlen))))
 
 
 def run_mkd(case):
   m = Model()
   facts = set()
+  src_d = src_m = None      # the dictionary d was copied from, and its model
+  how = case.get("how", "dict")
   if case["init"] is None:
     d = MultiKeyDict()
   else:
+    # The constructor takes what dict() takes and assigns the items of that dict in its order. The
+    # positional part has each key once and no key that is also a keyword (for repeated keys "the items
+    # of dict(...)" and "the pairs one after the other" would order a key tuple differently: not decided
+    # by the statement).
+    kw = {}
+    if how.endswith("keywords"):
+      for k, v in case.get("kw", []):
+        kw[k] = v
     src = {}
     for k, v in case["init"]:
-      src[k] = v
-    d = MultiKeyDict(src)
-    for k, v in src.items():   # dict order is insertion order (deterministic)
+      if how.startswith("copy") or k not in kw:
+        src[k] = v
+    if how.startswith("copy"):
+      # another MultiKeyDict with a history of its own (the pairs assigned one by one); its items are
+      # (key tuple, value): disjoint tuples, distinct values, so their order does not matter
+      src_d, src_m = MultiKeyDict(), Model()
+      for k, v in case["init"]:
+        src_d[k] = v
+        src_m.set(k, v)
+      compare(src_d, src_m, UNIVERSE, VALS, "in the dictionary to be copied, made from %r" % (case["init"],))
+      d = MultiKeyDict(src_d, **kw)
+      for g in src_m.groups:
+        m.set(tuple(g[1]), g[0])
+      facts.add("from-multikeydict")
+    else:
+      pos = [] if how == "keywords" else [src if how.startswith("dict") else list(src.items())]
+      d = MultiKeyDict(*pos, **kw)
+      if pos:
+        for k, v in src.items():   # dict order is insertion order (deterministic)
+          m.set(k, v)
+        facts.add("from-dict" if how.startswith("dict") else "from-pairs")
+    for k, v in kw.items():
       m.set(k, v)
-    facts.add("from-dict")
-    compare(d, m, SCALAR_KEYS, VALS, "after construction from %r" % (src,))
+    if kw:
+      facts.add("from-keywords")
+      if how != "keywords" and (src if src_d is None else len(src_d)):
+        facts.add("from-mapping-and-keywords")
+    ctx = "after construction (%s) from %r %r" % (how, case["init"] if src_d is not None else src, kw)
+    compare(d, m, UNIVERSE, VALS, ctx)
+    if src_d is not None:
+      compare(src_d, src_m, UNIVERSE, VALS, "in the copied dictionary " + ctx)
   for n, op in enumerate(case["ops"]):
-    facts |= step_mkd(d, m, op)
-    compare(d, m, SCALAR_KEYS, VALS, "after step %d of %r" % (n, case["ops"]))
+    if src_d is not None and n % 3 == 2:
+      # two live dictionaries: every third step belongs to the history of the copied one
+      facts |= step_mkd(src_d, src_m, op)
+      facts.add("step on the copied dictionary")
+    else:
+      facts |= step_mkd(d, m, op)
+    ctx = "after step %d of %r" % (n, case["ops"])
+    compare(d, m, UNIVERSE, VALS, ctx)
+    if src_d is not None:
+      compare(src_d, src_m, UNIVERSE, VALS, "in the copied dictionary (%s; steps 2, 5, ... are its own) %s" % (how, ctx))
   if any(op[0] == "set" and isinstance(op[1], tuple) and len(set(op[1])) < len(op[1]) for op in case["ops"]):
     facts.add("duplicate-in-tuple")
   return {"nontrivial": "shared" in facts or "merge-by-equal-value" in facts,
@@ -325,6 +379,16 @@ NAMES = ["p", "q", "r", "s", "zz", "copy", "keys"]
 INHERITED = [n for n in NAMES if hasattr(StrategyDict, n)]     # names that shadow a dict method
 assert INHERITED == ["copy", "keys"]
 NF = 4
+# (positional arguments, keyword arguments) of a call, n standing for the number drawn with the step
+CALLS = [lambda n: ((), {}),
+         lambda n: ((), {"key": n}),
+         lambda n: ((n,), {"key": 7}),
+         lambda n: ((n, 7), {"a": None, "default": n, "self_": 0})]
+
+
+def _result(i, a, kw):
+  """What strategy i returns: which one it is and everything it was called with."""
+  return (i, a) if not kw else (i, a, sorted(kw.items()))
 
 
 def strat_sd(tier):
@@ -338,7 +402,10 @@ def strat_sd(tier):
     st.tuples(st.just("deco"), names, f, st.booleans()),
     st.tuples(st.just("del"), name),
     st.tuples(st.just("delattr"), name),
-    st.tuples(st.just("call"), st.integers(0, 5)),
+    # calling the dictionary: positional arguments only, or (every other one) in one of the CALLS forms
+    # (no argument at all, keywords only, both); .map keeps one_of from flattening the pair
+    st.one_of(st.tuples(st.just("call"), st.integers(0, 5)),
+              st.tuples(st.just("callkw"), st.integers(0, 5), st.integers(0, len(CALLS) - 1))).map(tuple),
     # the attribute of a name replaced by hand with something that is no strategy (sd.p = 14): the library
     # keeps such an attribute when the item goes, and puts the item back in its place on delattr
     st.tuples(st.just("hand"), name, st.integers(0, 2)),
@@ -364,16 +431,16 @@ def strat_sd(tier):
 class _Strategies(object):
   """Bound methods: every attribute access gives a new object that is == to the previous ones."""
   def m0(self, *a, **kw):
-    return (0, a)
+    return _result(0, a, kw)
 
   def m1(self, *a, **kw):
-    return (1, a)
+    return _result(1, a, kw)
 
   def m2(self, *a, **kw):
-    return (2, a)
+    return _result(2, a, kw)
 
   def m3(self, *a, **kw):
-    return (3, a)
+    return _result(3, a, kw)
 
 
 class _Falsy(object):
@@ -382,7 +449,7 @@ class _Falsy(object):
     self.i = i
 
   def __call__(self, *a, **kw):
-    return (self.i, a)
+    return _result(self.i, a, kw)
 
   def __len__(self):
     return 0
@@ -403,7 +470,7 @@ class _Falsy(object):
 def run_sd(case):
   def mk(i):
     def f(*a, **kw):
-      return (i, a)
+      return _result(i, a, kw)
     return f
   methods = case.get("values") == "bound methods"
   holder = _Strategies()
@@ -457,7 +524,7 @@ def run_sd(case):
       ops.append(("del", nm(o[1])) if o[3] is None else ("set1", nm(o[1]), o[3]))
     elif o[0] in ("set", "deco", "refused"):
       ops.append((o[0], tuple(nm(x) for x in o[1])) + tuple(o[2:]))
-    elif o[0] == "call":
+    elif o[0] in ("call", "callkw"):
       ops.append(tuple(o))
     else:
       ops.append((o[0], nm(o[1])) + tuple(o[2:]))
@@ -558,6 +625,15 @@ def run_sd(case):
       exp = NotImplemented if default[0] is None else (default[0], (op[1], 7))
       if got is not exp and got != exp:
         raise Violation("sd(%r, 7) -> %r, expected %r %s" % (op[1], got, exp, ctx))
+    elif op[0] == "callkw":
+      a, kw = CALLS[op[2]](op[1])
+      got = sd(*a, **kw)
+      exp = NotImplemented if default[0] is None else _result(default[0], a, kw)
+      if got is not exp and got != exp:
+        raise Violation("sd(*%r, **%r) -> %r, expected %r %s" % (a, kw, got, exp, ctx))
+      facts.add("call without arguments" if not a and not kw else "call with keywords")
+      if kw and default[0] is not None:
+        facts.add("keywords reach the default strategy")
     # state comparison
     compare(sd, m, NAMES, [val(i) for i in range(NF)], ctx)
     for name in NAMES:
@@ -599,13 +675,17 @@ CLAUSES = [
              doc="every history up to length 4 (quick) / 5 (thorough) over 30 ops on keys a,b,c and values 1,2 (assignments to a key / a key pair, deletion of a key, deletion by the key tuple a key's group has at that moment)"),
   Clause("mkd_histories", strat_mkd, run_mkd, quick=4000, thorough=60000, fuzz={"thorough": 80000},
          floors={"shared": .2, "merge-by-equal-value": .2, "overwrite": .2, "delete-last-key": .03,
-                 "delete-by-stored-tuple": .12, "refused-assignment": .15},
-         doc="random histories over hash-equal key/value spellings, tuple keys with duplicates, construction from a dict, "
+                 "delete-by-stored-tuple": .12, "refused-assignment": .15,
+                 "from-keywords": .04, "from-mapping-and-keywords": .02, "from-multikeydict": .05,
+                 "step on the copied dictionary": .04},
+         doc="random histories over hash-equal key/value spellings, tuple keys with duplicates, construction from a dict / "
+             "pairs / keywords / another MultiKeyDict (then two live dictionaries, each with its own history), "
              "deletions by key tuples and refused (unhashable-value) assignments in between"),
   Clause("strategydict", strat_sd, run_sd, quick=3000, thorough=40000, fuzz={"thorough": 80000},
          floors={"shared": .15, "default re-chosen": .03, "merge-by-equal-value": .15,
                  "attribute replaced by hand": .2, "item deleted under a hand-made attribute": .03,
-                 "refused store": .2, "no default after a refused store": .12},
+                 "refused store": .2, "no default after a refused store": .12,
+                 "call with keywords": .09, "keywords reach the default strategy": .05},
          doc="StrategyDict: items == attributes, default selection and re-selection (a refused store of an unhashable "
-             "strategy chooses nothing), call dispatch"),
+             "strategy chooses nothing), call dispatch (positional, keyword and no arguments)"),
 ]
